@@ -269,6 +269,8 @@ def gaussian_form(c, param, form, n, sparse_side):
             v = c.real('v', pos=True); diag = np.array([v] * n, dtype=object if c.sym else float); arg = v
         elif form == 'vector':
             diag = c.vec('v', n, pos=True); arg = diag
+        elif form in ('list', 'tuple'):                  # the diagonal as a plain Python sequence
+            diag = c.vec('v', n, pos=True); arg = list(diag) if form == 'list' else tuple(diag)
         elif form == 'diagmatrix':
             diag = c.vec('v', n, pos=True); arg = np.diag(diag)
             if c.sym: arg = np.where(np.eye(n) == 1, arg, core.SReal(z3.RealVal(0)))
@@ -344,8 +346,9 @@ def jobs(tier):
     G = F('_gaussian', 'Gaussian.__init__', 'Gaussian.logpdf', 'Gaussian._logupdf', 'get_sqrtprec_from_cov', 'get_sqrtprec_from_prec',
           'get_sqrtprec_from_sqrtcov', 'get_sqrtprec_from_sqrtprec')
     for param in ('cov', 'prec', 'sqrtcov', 'sqrtprec'):
-        for form in ('scalar', 'vector', 'diagmatrix', 'sparsediag', 'dense') + (('dense_nonsym_root',) if param.startswith('sqrt') else ()):
+        for form in ('scalar', 'vector', 'list', 'tuple', 'diagmatrix', 'sparsediag', 'dense') + (('dense_nonsym_root',) if param.startswith('sqrt') else ()):
             for side in ('below', 'above'):
+                if form in ('list', 'tuple') and q and (side == 'above' or (form == 'tuple' and param != 'cov')): continue
                 for n in ([2] if (q or form.startswith('dense')) else [2, 3]):
                     # dense input above the sparse switch goes through scipy's eigh with eigenvalue thresholding: bounded stand-in only
                     lvl = 'B' if (form.startswith('dense') and side == 'above') else 'Pbox'
